@@ -501,6 +501,35 @@ def r4(ctx: Ctx, rep: Report, fams):
                         rep.check(okh, "C01.R4", "int-hex:%s" % fn.short, fn.loc(n),
                                   "int(response_type, 16) total: all %d construction sites pass hex literals" % len(fam.response_types),
                                   bad="int(%s, 16) may raise ValueError: a construction site passes a non-hex response type" % norm(n.args[0]))
+                elif isinstance(n.func, ast.Attribute) and n.func.attr == "hex" and not n.args and not n.keywords and (
+                        isinstance(n.func.value, ast.Subscript) or isinstance(n.func.value, ast.Name)):
+                    pass      # bytes.hex() of the frame / a slice of it: total
+                elif isinstance(n.func, ast.Attribute) and n.func.attr == "to_bytes":
+                    # <request parameter>.to_bytes(n): OverflowError unless the value is reduced to n unsigned bytes - the
+                    # value of a write is a signed 16-bit number, the register an unsigned one
+                    okb, whyb = _to_bytes_total(prog, fn, n)
+                    if not okb and isinstance(n.func.value, ast.Name) and len(fn.params) >= 4 and n.func.value.id == fn.params[2] and n.args:
+                        # the register address of the request: 0..0xFFFF by construction (every request builder cuts it to 16 bits)
+                        try:
+                            nb = prog.consteval(n.args[0], fn.module)
+                        except NotConst:
+                            nb = None
+                        sg = next((k.value for k in n.keywords if k.arg == "signed"), None)
+                        if isinstance(nb, int) and nb >= 2 and (sg is None or (isinstance(sg, ast.Constant) and sg.value is False)):
+                            okb, whyb = True, "register address, unsigned 16 bit"
+                    if not okb and isinstance(n.func.value, ast.Name) and len(fn.params) >= 4 and n.func.value.id == fn.params[3] and n.args:
+                        # the value of the request: a signed 16-bit number (C02.R5 / C17.R2 hold the write sites to that domain)
+                        try:
+                            nb = prog.consteval(n.args[0], fn.module)
+                        except NotConst:
+                            nb = None
+                        sg = next((k.value for k in n.keywords if k.arg == "signed"), None)
+                        if isinstance(nb, int) and nb >= 2 and isinstance(sg, ast.Constant) and sg.value is True:
+                            okb, whyb = True, "request value, signed 16 bit, converted signed"
+                    rep.check(okb, "C01.R4", "to_bytes:%s:%s" % (fn.short, norm(n)[:40]), fn.loc(n),
+                              "%s cannot overflow (%s)" % (norm(n)[:40], whyb),
+                              bad="%s: %s raises OverflowError for values outside the unsigned range (%s; a written value may be negative): the validator fails with an undocumented outcome" % (
+                                  fn.short, norm(n)[:60], whyb))
                 else:
                     raise AnalysisError("unclassified primitive %s in validator %s (%s)" % (nm, fn.short, fn.loc(n)))
             elif isinstance(n, ast.BinOp) and isinstance(n.op, (ast.Div, ast.FloorDiv, ast.Mod)):
